@@ -123,6 +123,10 @@ class Server:
         env["GARDEN_LOG"] = "info"
         env["NO_COLOR"] = "1"
         env["MALLOC_ARENA_MAX"] = "2"
+        # the server unpacks its built-in files below $TMPDIR/garden-nrepl-<pid> and never removes them;
+        # keep that inside the scratch directory stop() deletes
+        env["TMPDIR"] = os.path.join(self.dir, "tmp")
+        os.makedirs(env["TMPDIR"], exist_ok=True)
         env.pop("GARDEN_VERIF_DELAY", None)
         if self.delays:
             env["GARDEN_VERIF_DELAY"] = ",".join("%s:%d" % kv for kv in sorted(self.delays.items()))
